@@ -411,7 +411,7 @@ def entry_guard_module(variant):
     return "\n\n".join(L) + "\n"
 
 
-def mixed_group_module(p, prio_dep=0, mirrored=False):
+def mixed_group_module(p, prio_dep=0, mirrored=False, dominated=False):
     """two positions; a STATIC method and a value-dependent method that are unordered (each more specific on one
     position) share a rank: A(x: Dependent[int, p], y: object) / B(x: object, y: int) (+ C(object, object) fallback).
     Documented: p(x) holds -> A and B both match and are unordered -> ambiguity; p(x) fails -> as if A were absent -> B."""
@@ -425,15 +425,21 @@ def mixed_group_module(p, prio_dep=0, mirrored=False):
         L.append("def m1(x: int, y: object):\n    LOG.append(1)\n    return 1")
     L.append("def m2(x: object, y: object):\n    LOG.append(2)\n    return 2")
     L.append("def m3(x: str, y: str):\n    LOG.append(3)\n    return 3")
+    if dominated:
+        # a static method that only the dependent method dominates (same bound on the dependent position), unordered with the static method
+        # of the group: when the condition fails it competes with that one -- ambiguity either way
+        L.append(("def m4(x: object, y: int):" if mirrored else "def m4(x: int, y: object):") + "\n    LOG.append(4)\n    return 4")
     # both registration orders matter for which member leads the group: the module is generated in two orders
     L.append("for _m in (m1, m0):\n    f.register(_m)\nf.register(m2, priority=-1)\nf.register(m3)" if prio_dep else
              "for _m in (m0, m1):\n    f.register(_m)\nf.register(m2, priority=-1)\nf.register(m3)")
+    if dominated:
+        L.append("f.register(m4)")
     L.append("F = f.dispatch")
     L.append("for _a in (0, 1, 11, -3, True, 'a', None):\n    for _b in (0, 1, 11, -3, True, 'a', None):\n        _outcome(lambda: F(_a, _b))")
     dep_arg = "y" if mirrored else "x"
     L.append(f'''def _spec(x, y):
     holds = (lambda x: {p})({dep_arg})
-    return "AMB" if holds else 1''')
+    return "AMB" if (holds or {dominated!r}) else 1''')
     L.append('def check_ints(x: int, y: int) -> bool:\n    """\n    post: _\n    """\n    return _outcome(lambda: F(x, y)) == _spec(x, y) and _pred_ok()')
     L.append('def reach_static(x: int, y: int) -> bool:\n    """\n    post: not _\n    """\n    return _outcome(lambda: F(x, y)) == 1')
     L.append('def reach_amb(x: int, y: int) -> bool:\n    """\n    post: not _\n    """\n    return _outcome(lambda: F(x, y)) == "AMB"')
